@@ -40,6 +40,10 @@ for d in sorted(glob.glob(V + "/seeded/*/")):
     print(rows[-1], flush=True)
 shutil.rmtree(V + "/evidence")
 shutil.copytree(bak, V + "/evidence")
+if only and os.path.exists(V + "/seeded/matrix.json"):
+    old = [tuple(r) for r in json.load(open(V + "/seeded/matrix.json"))]
+    names = set(r[0] for r in rows)
+    rows = sorted([r for r in old if r[0] not in names] + rows)
 json.dump(rows, open(V + "/seeded/matrix.json", "w"), indent=1)
 # leave binaries built from the restored tree behind
 sys.path.insert(0, V + "/lib")
